@@ -66,7 +66,12 @@ def make_wf(n, edges, data_mode, vol_mode):
         d = None
         if data_mode == "all" or (data_mode == "some" and i % 2 == 0):
             d = 10 + i
-        nodes.append([IDS[i], 100 + 7 * i, d])
+        comp = 100 + 7 * i
+        if data_mode == "huge":
+            # integers that a double cannot hold
+            comp = 2 ** 53 + 1 + 2 * i
+            d = 10 ** 17 + 3 + i if i % 2 == 0 else None
+        nodes.append([IDS[i], comp, d])
     es = []
     for i, j in edges:
         if vol_mode == 2:
@@ -278,7 +283,8 @@ def run(rep, tier, seed):
                 combos = [(dm, vm, nc) for dm in ("none", "some", "all")
                           for vm in (0, 1)
                           for nc in (("a", 0), ("emu", 7))]
-                combos += [("some", 2, ("a", 0)), ("none", 2, ("emu", 7))]
+                combos += [("some", 2, ("a", 0)), ("none", 2, ("emu", 7)),
+                           ("huge", 1, ("a", 0))]
             for dm, vm, nc in combos:
                 items.append({"engine": "E3", "n": n, "edges": edges,
                               "data": dm, "vol": vm, "name": nc[0],
